@@ -803,11 +803,25 @@ def generate(srcdir):
     emit(_defn('hx_wr_pad', [('len', 'Z')], 'Z', trw.z(wh['H_pad']), 'SEG-Y route: zero bytes appended after each header array of len bytes'))
     nw = match_function(cv, 'NumpyConverter.write_headers', T_NP_WRITE_HEADERS)
     emit(_defn('hx_np_pad', [('len', 'Z')], 'Z', trw.z(nw['H_pad']), 'NumPy route: the same'))
-    match_function(cv, 'NumpyConverter.__init__', T_NP_INIT)
+    try:        # D36 repair: keys are checked against the 89 fields of the table
+        match_function(cv, 'NumpyConverter.__init__', T_NP_INIT.replace(
+            '''    for tracefield, header_array in self.trace_headers.items():
+        assert tracefield in segyio.tracefield.keys.values()
+''', '''    table_fields = [int(hw) for hw in segyio.segy.Field(bytearray(240), kind='trace')]
+    for tracefield, header_array in self.trace_headers.items():
+        assert int(tracefield) in table_fields
+'''))
+        np_keys_in_table = True
+    except GenFail:
+        match_function(cv, 'NumpyConverter.__init__', T_NP_INIT)
+        np_keys_in_table = False
     match_function(cv, 'NumpyConverter.run', T_NP_RUN)
     emit('(* NumpyConverter.__init__ matched: OrderedDict(sorted(items)), defaults for 189 / 193 appended when absent, then\n'
          '   OrderedDict((tf, a.astype(np.int32)) for tf, a in sorted(items)): arrays are int32 and in ascending key order. *)\n'
          'Definition hx_np_sorted_int32 : bool := true.\n'
+         '(* header keys asserted to be fields of the table (true) or merely members of segyio.tracefield.keys (false: 233 and\n'
+         '   237 are accepted and the file written is unreadable, D36); the NumPy theorem assumes the keys are table fields *)\n'
+         f'Definition hx_np_keys_in_table : bool := {"true" if np_keys_in_table else "false"}.\n'
          'Definition hx_np_default_il : Z := 189.\nDefinition hx_np_default_xl : Z := 193.\n')
 
     # ------------------------------------------------------------------ conversion_utils.py
